@@ -404,6 +404,7 @@ package tds
 //@   requires [readable] ch.$readable
 //@ func (*EnvChangePackageField).ReadFrom returns (n, err) inline
 //@   requires [readable] ch.$readable
+//@   requires [zero-member] field.NewValue == "" && field.OldValue == ""
 
 //@ func NewPacketQueue returns (q)
 //@   modifies
@@ -894,3 +895,39 @@ package tds
 //@   ensures [info-message-consumed] is(pkg, *EEDPackage) && eedinfo(as(pkg, *EEDPackage).Status) ==> !pass && err == nil && tdsChan.$eedcalls == old(tdsChan.$eedcalls)
 //@   ensures [message-surfaced-once] is(pkg, *EEDPackage) && !eedinfo(as(pkg, *EEDPackage).Status) ==> pass && err == nil && tdsChan.$eedcalls == old(tdsChan.$eedcalls) + len(tdsChan.eedHooks)
 //@   ensures [others-pass] !is(pkg, *EnvChangePackage) && !is(pkg, *EEDPackage) ==> pass && err == nil && tdsChan.$eedcalls == old(tdsChan.$eedcalls) && tdsChan.$envcalls == old(tdsChan.$envcalls)
+
+//@ # ---------------------------------------------------------------------
+//@ # Package layouts (C06): the length field written after the token byte equals the number
+//@ # of bytes that follow it (for every value that fits the width of the field)
+//@ pred lenfield16(ch BytesChannel, o int) { ch.$out[o + 1] + 256 * ch.$out[o + 2] }
+//@ pred lenfield32(ch BytesChannel, o int) { ch.$out[o + 1] + 256 * ch.$out[o + 2] + 65536 * ch.$out[o + 3] + 16777216 * ch.$out[o + 4] }
+//@ func (CapabilityPackage).WriteTo returns (err)
+//@   ensures [length-field-consistent] err == nil && ch.$w - old(ch.$w) - 3 < 65536 ==> lenfield16(ch, old(ch.$w)) == ch.$w - old(ch.$w) - 3
+//@ func (CurClosePackage).WriteTo returns (err)
+//@   ensures [length-field-consistent] err == nil && ch.$w - old(ch.$w) - 3 < 65536 ==> lenfield16(ch, old(ch.$w)) == ch.$w - old(ch.$w) - 3
+//@ func (CurDeletePackage).WriteTo returns (err)
+//@   ensures [length-field-consistent] err == nil && ch.$w - old(ch.$w) - 3 < 65536 ==> lenfield16(ch, old(ch.$w)) == ch.$w - old(ch.$w) - 3
+//@ func (CurFetchPackage).WriteTo returns (err)
+//@   ensures [length-field-consistent] err == nil && ch.$w - old(ch.$w) - 3 < 65536 ==> lenfield16(ch, old(ch.$w)) == ch.$w - old(ch.$w) - 3
+//@ func (CurInfoPackage).WriteTo returns (err)
+//@   ensures [length-field-consistent] err == nil && ch.$w - old(ch.$w) - 3 < 65536 ==> lenfield16(ch, old(ch.$w)) == ch.$w - old(ch.$w) - 3
+//@ func (CurOpenPackage).WriteTo returns (err)
+//@   ensures [length-field-consistent] err == nil && ch.$w - old(ch.$w) - 3 < 65536 ==> lenfield16(ch, old(ch.$w)) == ch.$w - old(ch.$w) - 3
+//@ func (CurUpdatePackage).WriteTo returns (err)
+//@   ensures [length-field-consistent] err == nil && ch.$w - old(ch.$w) - 3 < 65536 ==> lenfield16(ch, old(ch.$w)) == ch.$w - old(ch.$w) - 3
+//@ func (EEDPackage).WriteTo returns (err)
+//@   ensures [length-field-consistent] err == nil && ch.$w - old(ch.$w) - 3 < 65536 ==> lenfield16(ch, old(ch.$w)) == ch.$w - old(ch.$w) - 3
+//@ func (EnvChangePackage).WriteTo returns (err)
+//@   ensures [length-field-consistent] err == nil && ch.$w - old(ch.$w) - 3 < 65536 ==> lenfield16(ch, old(ch.$w)) == ch.$w - old(ch.$w) - 3
+//@ func (ErrorPackage).WriteTo returns (err)
+//@   ensures [length-field-consistent] err == nil && ch.$w - old(ch.$w) - 3 < 65536 ==> lenfield16(ch, old(ch.$w)) == ch.$w - old(ch.$w) - 3
+//@ func (LoginAckPackage).WriteTo returns (err)
+//@   ensures [length-field-consistent] err == nil && ch.$w - old(ch.$w) - 3 < 65536 ==> lenfield16(ch, old(ch.$w)) == ch.$w - old(ch.$w) - 3
+//@ func (OptionCmdPackage).WriteTo returns (err)
+//@   ensures [length-field-consistent] err == nil && ch.$w - old(ch.$w) - 3 < 65536 ==> lenfield16(ch, old(ch.$w)) == ch.$w - old(ch.$w) - 3
+//@ func (*LanguagePackage).WriteTo returns (err)
+//@   ensures [length-field-consistent] err == nil && ch.$w - old(ch.$w) - 5 < 4294967296 ==> lenfield32(ch, old(ch.$w)) == ch.$w - old(ch.$w) - 5
+//@ func (MsgPackage).WriteTo returns (err)
+//@   ensures [length-field-consistent] err == nil ==> ch.$out[old(ch.$w) + 1] == ch.$w - old(ch.$w) - 2
+//@ func (DonePackage).WriteTo returns (err)
+//@   ensures [fixed-size] err == nil ==> ch.$w == old(ch.$w) + 9
